@@ -446,6 +446,34 @@ pub fn run_c01(env: &Env) -> i32 {
     rep.finish()
 }
 
+fn probe_c02_tn() -> CaseResult {
+    // regression: aliased __typename must be the literal
+    let schema = "type A { x: Int }\ntype Query { a: A! }";
+    let ops = "query Q { a { tn: __typename } }";
+    let detail = json!({"schema": schema, "operations": ops});
+    let sfiles = vec![(PathBuf::from("/p/schema.graphql"), schema.to_string())];
+    let ofiles = vec![(PathBuf::from("/p/ops.graphql"), ops.to_string())];
+    let ss = schema_stage(&sfiles, &detail)?;
+    let sdoc = ss.doc.as_ref().ok_or_else(|| Failure::new("probe-schema", "schema rejected", detail.clone()))?;
+    let os = op_stage(sdoc, 1, &ofiles, &detail)?;
+    let schema_dts = gen_schema_dts(sdoc, &SchemaGenConfig::default(), None, &detail)?.map_err(|e| Failure::new("printer", e, detail.clone()))?.buffer;
+    let mut oopts = OperationTypePrinterOptions::default();
+    oopts.schema_source = "./schema".into();
+    let op_dts = gen_operation_dts(sdoc, &os.files[0].doc, oopts, None, &detail)?.buffer;
+    let mut program = Program::new();
+    program.add_module("Schema", &schema_dts).map_err(|e| Failure::new("ts-parse-error", e.msg, detail.clone()))?;
+    program.add_module("ops", &op_dts).map_err(|e| Failure::new("ts-parse-error", e.msg, detail.clone()))?;
+    let sem = program.alias("ops", &["QResult"]).map_err(|e| unsupported(e, &detail))?;
+    let mut a = BTreeMap::new();
+    a.insert("tn".to_string(), Val::Str("NotA".into()));
+    let mut r = BTreeMap::new();
+    r.insert("a".to_string(), Val::Obj(a));
+    if tsmini::member(&Val::Obj(r), &sem, 0).map_err(|e| unsupported(e, &detail))? {
+        return Err(Failure::new("admits-impossible-value", "tn: \"NotA\" admitted", json!({"operation_dts": op_dts})));
+    }
+    Ok(())
+}
+
 pub fn run_c02(env: &Env) -> i32 {
     let mut rep = Report::new(
         env,
@@ -453,6 +481,7 @@ pub fn run_c02(env: &Env) -> i32 {
         "same generated cases as C01; candidate values are (a) single-point mutations of real responses (deleted key, null, foreign enum string, atom of another type, wrapped/unwrapped list, sibling __typename) and (b) sampled inhabitants of the emitted type itself; oracle: member(v, emitted type) implies v in Ref_local (per selection set: some runtime type, some assignment of that level's boolean variables), plus the structural check that every key passed to __SelectionSet exists in the referenced schema declaration. Non-trivial: at least one candidate lies outside Ref_local (so the implication has teeth); distinct = (schema, document).",
     );
     rep.assume("extra object keys are never a reason for rejection (TypeScript object types are open, no emitted type can exclude them): Ref_local is read modulo keys the chosen branch does not select");
-    rep.campaign("candidates", env.cases(1_200, 30_000), (300, 1500), c02_case);
+    rep.probe("C02-aliased-typename", probe_c02_tn);
+    rep.campaign("candidates", env.cases(800, 30_000), (300, 1500), c02_case);
     rep.finish()
 }
